@@ -113,8 +113,9 @@ class Engine:
     ADVERT_BOUND = 120          # ready-cycles from enable until LGOOD + 4 LCRD must be complete
     QUIESCE_BOUND = 300         # ready-cycles until every obligation is met once the traffic has stopped
 
-    def __init__(self, dut, b, rng, res, prop):
+    def __init__(self, dut, b, rng, res, prop, nbuf=4):
         self.dut, self.b, self.rng, self.res, self.prop = dut, b, rng, res, prop
+        self.nbuf = nbuf                  # number of header buffers the DUT was built with (= credits it may have outstanding)
         d = dut
         self.sig_sink = (d.sink.valid, d.sink.payload, d.sink.ctrl)
         self.sig_src = (d.source.valid, d.source.ready, d.source.payload, d.source.ctrl)
@@ -141,6 +142,7 @@ class Engine:
         self.enable_level = 0
         self.reset_level = 0
         self.strobes = {}                 # name -> remaining cycles (1 = strobe next cycle)
+        self.strobed_since_down = set()   # request inputs pulsed since the link last went down (or since power-on)
         self.src_profile = ("always",)
         self.q_profile = ("always",)
         self.src_hold_until = None        # ready forced low before that cycle and high in that cycle
@@ -150,7 +152,6 @@ class Engine:
         self.allow_b2b = False            # may a header start in the cycle right after the previous header's last word?
         self._drv_hdr_left = 0
         self._drv_hdr_just_ended = False
-        self.b2b_taint = False
         self.src_stall_word1 = 0          # directed: stall the command word for that many cycles (next command)
         self._word1_stall_left = 0
 
@@ -194,14 +195,14 @@ class Engine:
             return
         self.dead = True
         mech = symptom
-        if self.b2b_taint:
-            mech = "header_missed_back_to_back"
-            detail = "symptom=%s %s" % (symptom, detail)
+        if symptom in ("source_changed_under_backpressure", "source_word_not_lcstart", "malformed_link_command",
+                       "unexpected_link_command"):
+            pass                              # malformed output can never be explained by a lost / inconsistent restart
         elif self.taint == "midcmd":
             mech = "restart_lost_trigger_during_link_command"
         elif self.taint == "race":
             mech = "restart_inconsistent_unacked_or_racing_header"
-        if self.taint and not self.b2b_taint:
+        if mech != symptom:
             detail = "symptom=%s %s" % (symptom, detail)
         ctx = " | cyc=%d epoch=%d expected_seq=%d ignoring=%d fifo=%d lgood_due=%s lcrd_sent=%d pops=%d last_cmds=%s epochs=%s" % (
             self.b.cycle, self.epoch, self.model.expected, self.model.ignoring, len(self.model.fifo),
@@ -296,6 +297,8 @@ class Engine:
         for name, sig in self.strobe_sigs.items():
             n = self.strobes.get(name, 0)
             bset(sig, 1 if n == 1 else 0)
+            if n == 1:
+                self.strobed_since_down.add(name)
             if n:
                 self.strobes[name] = n - 1
         self.res.sig(valid, data, ctrl, r, q, self.enable_level, self.reset_level)
@@ -412,7 +415,6 @@ class Engine:
                 if sd == HPSTART and sc == 0xF:
                     self.in_header = []
                     if cyc == self.last_hdr_end + 1:
-                        self.b2b_taint = True
                         res.bin("header_back_to_back")
             else:
                 self.in_header.append(sd)
@@ -477,9 +479,9 @@ class Engine:
             m.accepted += 1
             if m.expected == 0:
                 res.bin("seq_wrap")
-            if len(m.fifo) == 4:
+            if len(m.fifo) == self.nbuf:
                 res.bin("buffers_full")
-            if len(m.fifo) > 4:
+            if len(m.fifo) > self.nbuf:
                 # stimulus error of the harness (partner must respect credits) -- never judged
                 res.unjudged += 1
             if len(m.lgood_due) >= 2:
@@ -526,19 +528,19 @@ class Engine:
             res.event("lcrd_seen")
             if a is not None and a["lgood"] is None:
                 return self.fail("lcrd_before_advert_lgood", "LCRD %d before the sequence number advertisement" % sub)
-            if sub != (m.lcrd_sent & 3):
-                return self.fail("lcrd_wrong_index", "LCRD index %d, expected %d (A-B-C-D order, %d sent since enable)" % (sub, m.lcrd_sent & 3, m.lcrd_sent))
-            if m.lcrd_sent + 1 > 4 + self.cmd_pops_snapshot:
-                return self.fail("lcrd_without_free_buffer", "LCRD #%d since enable started at cycle %d when only %d headers had been consumed: buffered+advertised > 4" % (
-                    m.lcrd_sent + 1, first_valid, self.cmd_pops_snapshot))
+            if sub != (m.lcrd_sent % self.nbuf):
+                return self.fail("lcrd_wrong_index", "LCRD index %d, expected %d (A-B-C-D order over %d buffers, %d sent since enable)" % (sub, m.lcrd_sent % self.nbuf, self.nbuf, m.lcrd_sent))
+            if m.lcrd_sent + 1 > self.nbuf + self.cmd_pops_snapshot:
+                return self.fail("lcrd_without_free_buffer", "LCRD #%d since enable started at cycle %d when only %d headers had been consumed: buffered+advertised > %d" % (
+                    m.lcrd_sent + 1, first_valid, self.cmd_pops_snapshot, self.nbuf))
             m.lcrd_sent += 1
-            if m.lcrd_sent > 4:
+            if m.lcrd_sent > self.nbuf:
                 res.event("lcrd_for_freed_buffer_checked")
                 if sub == 0:
                     res.bin("lcrd_wrap")
                 if done - self.last_pop <= 1:
                     res.bin("lcrd_done_at_pop")
-            if a is not None and m.lcrd_sent == 4:
+            if a is not None and m.lcrd_sent == self.nbuf:
                 res.event("advert_complete")
                 self.advert = None
         elif cmd == LBAD:
@@ -552,12 +554,16 @@ class Engine:
                 return self.fail("lbad_overtakes_lgood", "LBAD sent while LGOOD for %s still outstanding" % list(m.lgood_due))
             m.lbad_due -= 1
             res.event("lbad_checked")
-        elif cmd == LRTY:
-            res.event("lrty_seen")
-        elif cmd in (LUP, LDN):
-            res.event("keepalive_seen")
-        elif cmd == LXU:
-            res.event("lxu_seen")
+        elif cmd in (LRTY, LUP, LDN, LXU):
+            res.event({LRTY: "lrty_seen", LXU: "lxu_seen"}.get(cmd, "keepalive_seen"))
+            need = {LRTY: "retry_required", LXU: "reject_power_state"}.get(cmd, "keepalive_required")
+            if a is not None and a["lgood"] is None:
+                # something overtakes the sequence number advertisement: only a request made in this link life may do that
+                if need not in self.strobed_since_down:
+                    return self.fail("stale_command_before_advert_lgood", "%s sent before the advertisement LGOOD although %s was not pulsed since the link went down" % (CMD_NAMES[cmd], need))
+                res.bin("fresh_request_before_advert")
+            else:
+                res.event("request_commands_after_advert_checked")
         else:
             return self.fail("unexpected_link_command", "%s %d" % (CMD_NAMES.get(cmd, cmd), sub))
 
@@ -565,6 +571,7 @@ class Engine:
     def _trigger(self, cyc, en, rst):
         m, res = self.model, self.res
         self.phase = "down"
+        self.strobed_since_down = set()
         self.first_trigger = self.last_trigger = cyc
         self.reset_seen = bool(rst)
         recent_acc = [c for c, k in self.hdr_ends if c >= cyc - 6 and k == "accepted"]
@@ -579,7 +586,7 @@ class Engine:
         self.advert = None
         self.crash_state = {
             "buffered": len(m.fifo), "ignoring": m.ignoring, "lbad_due": m.lbad_due, "acks_due": len(m.lgood_due),
-            "credits_due": 4 + m.pops - m.lcrd_sent, "seq": m.expected, "lcrd_index": m.lcrd_sent & 3,
+            "credits_due": self.nbuf + m.pops - m.lcrd_sent, "seq": m.expected, "lcrd_index": m.lcrd_sent % self.nbuf,
         }
         res.event("link_down_events")
 
@@ -707,7 +714,7 @@ class Engine:
         bound = bound or self.QUIESCE_BOUND
         n = total = 0
         while not self.dead:
-            done = (not m.lgood_due and not m.lbad_due and m.lcrd_sent == 4 + m.pops and self.advert is None
+            done = (not m.lgood_due and not m.lbad_due and m.lcrd_sent == self.nbuf + m.pops and self.advert is None
                     and (not m.fifo or not need_empty) and not self.txq and self.src_idle_run >= 4)
             if done:
                 return
@@ -724,8 +731,8 @@ class Engine:
             self.fail("lbad_missing", "corrupted header not answered with LBAD within %d cycles" % bound)
         elif m.fifo and need_empty:
             self.fail("header_not_offered", "accepted header %s not offered on queue within %d cycles" % (_hx(m.fifo[0][0]), bound))
-        elif m.lcrd_sent != 4 + m.pops:
-            self.fail("lcrd_missing", "%d LCRD since enable, 4 + %d consumed headers expected within %d cycles" % (m.lcrd_sent, m.pops, bound))
+        elif m.lcrd_sent != self.nbuf + m.pops:
+            self.fail("lcrd_missing", "%d LCRD since enable, %d + %d consumed headers expected within %d cycles" % (m.lcrd_sent, self.nbuf, m.pops, bound))
         elif self.advert is not None:
             self.fail("advert_incomplete", "advertisement not complete")
 
@@ -858,7 +865,10 @@ class Engine:
         rng = self.rng
         self.p_lbads -= 1
         yield from self.tick(rng.randint(0, 12) if react is None else react)
-        yield from self.wait_sink_idle(extra=3)
+        tight = rng.random() < 0.4
+        yield from self.wait_sink_idle(extra=0 if tight else 3)
+        if tight and self.b.cycle - self.last_hdr_end <= 2:
+            self.res.bin("lrty_right_after_header")
         self._partner_rx()
         if self.p_unacked and rng.random() < 0.15:
             # faulty partner: re-sends without LRTY first; the receiver must keep ignoring (good, in-sequence headers)
@@ -869,8 +879,9 @@ class Engine:
         # LRTY itself on the wire, then the strobe from the command detector
         self.txq.append((LCSTART, 0xF, 1))
         self.txq.append((link_command_word(LRTY, 0), 0, 1))
-        self.strobe("retry_received", delay=rng.randint(1, 2))
-        yield from self.tick(rng.randint(2, 4))
+        # the command word is sampled two cycles from now; luna's link command detector reports it 1-2 cycles later
+        self.strobe("retry_received", delay=rng.randint(2, 4))
+        yield from self.tick(rng.randint(0, 1) if tight else rng.randint(2, 4))
         resent = list(self.p_unacked)
         if resent:
             self.res.bin("retry_resends_%d" % min(len(resent), 3))
